@@ -112,6 +112,15 @@ def do_import(wt, sid):
 
 
 
+def run_one_check(d, prop):
+    """One `check <prop>` run on the scratch copy: {prop: [failing lines]} if it fails, {} if it passes."""
+    r = subprocess.run([os.path.join(HERE, 'check'), prop, '--repo', d, '--no-evidence'], capture_output=True, text=True)
+    lines = [re.sub(r'\s+', ' ', l.strip())[:300] for l in r.stdout.splitlines() if re.match(r'^\s+(FAIL|ANCHOR) ', l)]
+    if r.returncode == 0:
+        return {}
+    return {prop: lines[:5] or [(r.stderr or r.stdout)[-300:]]}
+
+
 def run_all_checks(d):
     """One `check all` run on the scratch copy: {property: [failing lines]} for the properties that fail."""
     r = subprocess.run([os.path.join(HERE, 'check'), 'all', '--repo', d, '--no-evidence'], capture_output=True, text=True)
